@@ -9,12 +9,12 @@ An observation is the record `(E, N, U, t)`, `t = timestamp.toAbsTime()`; the mo
 The model's exceptions are mapped by `liftErr` (`index`, `zerodiv`, `nonterm`, `type` ↦ `.index`, `.zerodiv`, `.fuel`, `.type`).
 
 * `tie_resampleSpatial` — for EVERY fuel `≥ len(track)` the translated function equals `lift` of the model's result, exceptions
-  included, on every track and step outside the one deviation below, under: `x ** 2 = x * x`; `IntCast` agrees with `NatCast`;
+  included, on every track (the empty one too) and every step, under: `x ** 2 = x * x`; `IntCast` agrees with `NatCast`;
   the zero test of a divisor (`Py.fdiv`: `x == 0`) is the negation of the model's `x < 0 ∨ 0 < x` for `ds` and for the
   differences of two entries of the abscissa table (`ZeroTest`: true in an ordered field, true of every non-NaN double).
 * `tie_resampleSpatial_of_zeroTest` — the same with the zero-test hypothesis for every scalar (ordered fields).
-* `resampleSpatial_empty_zero` — the DEVIATION: on an empty track with `ds == 0` the code raises ZeroDivisionError
-  (`(sfin - sini) / ds` is evaluated before `track.getFirstObs()`), the model says `index`.
+* `resampleSpatial_empty_zero` — on an empty track with `ds == 0` the code raises ZeroDivisionError (`(sfin - sini) / ds` is
+  evaluated before `track.getFirstObs()`) and so does the model (a former deviation of the model, corrected there).
 
 The loop lemmas (`cumLoop_tie`, `scanB_tie`/`advanceB_tie`, `spatialLoop_tie`) are stated for an arbitrary body satisfying a
 pointwise equation, which is then proved of the generated bodies: nothing of the generated text is copied here. -/
@@ -361,49 +361,52 @@ theorem spatialLoop_tie0 {ρ : Type} (P : List (Resample.Fix α)) (S : List α) 
 /-! ### assembling -/
 
 theorem resampleSpatialLegs_eq (trunc : α → Int) (P : List (Resample.Fix α)) (legs : List α) (ds sini sfin : α)
-    (first : Resample.Fix α) (h0 : (Resample.cum legs)[0]? = some sini)
-    (h1 : (Resample.cum legs)[(Resample.cum legs).length - 1]? = some sfin) (h2 : P[0]? = some first) :
+    (h0 : (Resample.cum legs)[0]? = some sini)
+    (h1 : (Resample.cum legs)[(Resample.cum legs).length - 1]? = some sfin) :
     Resample.resampleSpatialLegs trunc P legs ds =
       if ds < 0 ∨ 0 < ds then
-        match Resample.spatialLoop P (Resample.cum legs) sini sfin ds (trunc ((sfin - sini) / ds)).toNat 1 0 with
-        | .error e => .error e
-        | .ok out => .ok (first :: out)
+        match P[0]? with
+        | some first =>
+          match Resample.spatialLoop P (Resample.cum legs) sini sfin ds (trunc ((sfin - sini) / ds)).toNat 1 0 with
+          | .error e => .error e
+          | .ok out => .ok (first :: out)
+        | none => .error .index
       else .error .zerodiv := by
   unfold Resample.resampleSpatialLegs
-  simp only [List.head?_eq_getElem?, List.getLast?_eq_getElem?, h0, h1, h2]
+  simp only [List.head?_eq_getElem?, List.getLast?_eq_getElem?, h0, h1]
   rfl
 
 /-- **`__resampleSpatial(track, ds)` = the model's `resampleSpatial`, exceptions included, for every fuel `≥ len(track)`.**
 Hypotheses: `hsq` — `x ** 2 = x * x` (as for `TV.Tie.C17.tie_distance2DTo`); `hcast` — the conversion of the `int` `k` to a float
 is the model's cast of the natural number `k`; `hds`, `hden` — for the step `ds` and for every difference of two entries of
 the table `S` of curvilinear abscissas, `x == 0` (the test of `Py.fdiv`) is the negation of `x < 0 ∨ 0 < x` (the model's test):
-true in an ordered field and for every double that is not NaN; `hne` — not (empty track and `ds == 0`), the input on which the
-order of the exceptions differs (`resampleSpatial_empty_zero`); `hfuel` — the scans evaluate their test at most `len(S) =
-len(track)` times. A negative `N = int((sfin - sini)/ds)` is NOT a deviation: `range(1, N + 1)` is empty as is the model's
-`N.toNat` iterations. -/
+true in an ordered field and for every double that is not NaN; `hfuel` — the scans evaluate their test at most `len(S) =
+len(track)` times. Every track is covered, the empty one included (`S = [0]`; `ds == 0`: ZeroDivisionError on both sides —
+`resampleSpatial_empty_zero` —, else IndexError from `track.getFirstObs()` on both sides). A negative
+`N = int((sfin - sini)/ds)` needs no hypothesis: `range(1, N + 1)` is empty as is the model's `N.toNat` iterations. -/
 theorem tie_resampleSpatial (sqrt : α → α) (pow : α → α → α) (trunc : α → Int) (fuel : Nat) (track : List (Rec α)) (ds : α)
     (hsq : ∀ x : α, pow x 2 = x * x)
     (hcast : ∀ n : Nat, ((n : Int) : α) = (n : α))
     (hds : ZeroTest ds)
     (hden : ∀ a ∈ Resample.cum (Resample.legs2D sqrt (track.map toFix)),
       ∀ b ∈ Resample.cum (Resample.legs2D sqrt (track.map toFix)), ZeroTest (a - b))
-    (hne : track ≠ [] ∨ Py.feq ds 0 = false)
     (hfuel : track.length ≤ fuel) :
     Gen.Interpolation.resampleSpatial sqrt pow trunc fuel track ds
       = lift (Resample.resampleSpatial sqrt trunc (track.map toFix) ds) := by
   cases track with
   | nil =>
-    have hz : Py.feq ds 0 = false := by
-      rcases hne with h | h
-      · exact absurd rfl h
-      · exact h
     unfold Gen.Interpolation.resampleSpatial
     simp only []
     rw [Py.range_empty (show Py.len ([] : List (Rec α)) ≤ 1 by simp [Py.len])]
     simp only [Py.forList_nil, Py.bind_ok, Py.getItem_zero]
     rw [show Py.getIdx [(0 : α)] (Py.len [(0 : α)] - 1) = .ok 0 from rfl]
-    simp only [Py.bind_ok, Py.fdiv, hz]
-    rfl
+    simp only [Py.bind_ok]
+    rw [fdiv_eq hds]
+    unfold Resample.resampleSpatial
+    rw [resampleSpatialLegs_eq trunc _ _ ds 0 0 rfl rfl]
+    by_cases hc : ds < 0 ∨ 0 < ds
+    · rw [if_pos hc, if_pos hc]; rfl
+    · rw [if_neg hc, if_neg hc]; rfl
   | cons a rest =>
     obtain ⟨P, hP⟩ : ∃ P, P = (a :: rest).map toFix := ⟨_, rfl⟩
     obtain ⟨S, hSdef⟩ : ∃ S, S = Resample.cum (Resample.legs2D sqrt P) := ⟨_, rfl⟩
@@ -430,10 +433,10 @@ theorem tie_resampleSpatial (sqrt : α → α) (pow : α → α → α) (trunc :
     simp only [Py.bind_ok]
     rw [fdiv_eq hds]
     unfold Resample.resampleSpatial
-    rw [resampleSpatialLegs_eq trunc P _ ds sini sfin (toFix a) (by rw [← hSdef]; exact h0)
-      (by rw [← hSdef]; exact hl) (by rw [hP]; rfl), ← hSdef]
+    rw [resampleSpatialLegs_eq trunc P _ ds sini sfin (by rw [← hSdef]; exact h0)
+      (by rw [← hSdef]; exact hl), ← hSdef]
     by_cases hc : ds < 0 ∨ 0 < ds
-    · rw [if_pos hc, if_pos hc]
+    · rw [if_pos hc, if_pos hc, show P[0]? = some (toFix a) by rw [hP]; rfl]
       simp only [Py.bind_ok]
       rw [show Py.getIdx (a :: rest) 0 = .ok a from rfl]
       simp only [Py.bind_ok]
@@ -491,19 +494,23 @@ theorem tie_resampleSpatial (sqrt : α → α) (pow : α → α → α) (trunc :
 /-- `tie_resampleSpatial` when the zero test of a divisor is the model's for EVERY scalar (an ordered field) -/
 theorem tie_resampleSpatial_of_zeroTest (sqrt : α → α) (pow : α → α → α) (trunc : α → Int) (fuel : Nat) (track : List (Rec α))
     (ds : α) (hsq : ∀ x : α, pow x 2 = x * x) (hcast : ∀ n : Nat, ((n : Int) : α) = (n : α))
-    (hzero : ∀ x : α, ZeroTest x) (hne : track ≠ [] ∨ Py.feq ds 0 = false) (hfuel : track.length ≤ fuel) :
+    (hzero : ∀ x : α, ZeroTest x) (hfuel : track.length ≤ fuel) :
     Gen.Interpolation.resampleSpatial sqrt pow trunc fuel track ds
       = lift (Resample.resampleSpatial sqrt trunc (track.map toFix) ds) :=
-  tie_resampleSpatial sqrt pow trunc fuel track ds hsq hcast (hzero ds) (fun a _ b _ => hzero (a - b)) hne hfuel
+  tie_resampleSpatial sqrt pow trunc fuel track ds hsq hcast (hzero ds) (fun a _ b _ => hzero (a - b)) hfuel
 
-/-- **the model's deviation**: an empty track with `ds == 0`. The code computes `S = [0]`, then `N = int((sfin - sini) / ds)`
-raises ZeroDivisionError BEFORE `track.getFirstObs()` can raise IndexError; the model looks at the first observation first and
-says `index`. (With `ds != 0` both say IndexError: covered by `tie_resampleSpatial`.) -/
+/-- the empty track with `ds == 0` (formerly a deviation of the model, corrected in `Model/Resample.lean`): the code computes
+`S = [0]`, then `N = int((sfin - sini) / ds)` raises ZeroDivisionError BEFORE `track.getFirstObs()` can raise IndexError; the
+model now tests `ds` before it reads the first observation: `zerodiv` on both sides (`hds`: `ds == 0` is the model's zero test) -/
 theorem resampleSpatial_empty_zero (sqrt : α → α) (pow : α → α → α) (trunc : α → Int) (fuel : Nat) (ds : α)
-    (hz : Py.feq ds 0 = true) :
+    (hz : Py.feq ds 0 = true) (hds : ZeroTest ds) :
     Gen.Interpolation.resampleSpatial sqrt pow trunc fuel ([] : List (Rec α)) ds = .error .zerodiv ∧
-    Resample.resampleSpatial sqrt trunc (([] : List (Rec α)).map toFix) ds = .error .index := by
-  refine ⟨?_, rfl⟩
+    Resample.resampleSpatial sqrt trunc (([] : List (Rec α)).map toFix) ds = .error .zerodiv := by
+  have hc : ¬ (ds < 0 ∨ 0 < ds) := hds.mp hz
+  have hm : Resample.resampleSpatial sqrt trunc (([] : List (Rec α)).map toFix) ds = .error .zerodiv := by
+    unfold Resample.resampleSpatial
+    rw [resampleSpatialLegs_eq trunc _ _ ds 0 0 rfl rfl, if_neg hc]
+  refine ⟨?_, hm⟩
   unfold Gen.Interpolation.resampleSpatial
   simp only []
   rw [Py.range_empty (show Py.len ([] : List (Rec α)) ≤ 1 by simp [Py.len])]
@@ -516,10 +523,10 @@ end
 
 /-- the hypotheses of `tie_resampleSpatial_of_zeroTest` are satisfiable (here: the integers, with `x ** 2 := x * x`) -/
 example (sqrt : Int → Int) (trunc : Int → Int) (fuel : Nat) (track : List (Rec Int)) (ds : Int)
-    (hne : track ≠ [] ∨ Py.feq ds 0 = false) (hfuel : track.length ≤ fuel) :
+    (hfuel : track.length ≤ fuel) :
     Gen.Interpolation.resampleSpatial sqrt (fun x _ => x * x) trunc fuel track ds
       = lift (Resample.resampleSpatial sqrt trunc (track.map toFix) ds) :=
   tie_resampleSpatial_of_zeroTest sqrt (fun x _ => x * x) trunc fuel track ds (fun _ => rfl) (fun _ => rfl)
-    (fun x => by unfold ZeroTest Py.feq; simp only [Bool.and_eq_true, decide_eq_true_eq]; omega) hne hfuel
+    (fun x => by unfold ZeroTest Py.feq; simp only [Bool.and_eq_true, decide_eq_true_eq]; omega) hfuel
 
 end TV.Tie.C05Spatial
